@@ -109,10 +109,16 @@ pub fn preseal_melmint<C: ContentAddrStore>(state: UnsealedState<C>) -> Unsealed
     process_pegging(state)
 }
 
+/// The pool named by a request's data. Only the canonical spelling of a pool's name (the one `PoolKey::to_bytes` produces) is recognised: `PoolKey::from_bytes` also accepts a long form with the two denominations in either order, which addresses the same pool entry with its sides swapped (or, with equal sides, no pool at all).
+fn named_pool_key(data: &[u8]) -> Option<PoolKey> {
+    let key = PoolKey::from_bytes(data)?;
+    (key.left().to_bytes() < key.right().to_bytes() && key.to_bytes() == data).then_some(key)
+}
+
 fn extract_pool_keys_sorted(transactions: &mut [Transaction]) -> Vec<PoolKey> {
     transactions
         .iter()
-        .filter_map(|tx| PoolKey::from_bytes(&tx.data))
+        .filter_map(|tx| named_pool_key(&tx.data))
         .collect::<Vec<_>>()
         .pipe(|mut v| {
             v.sort();
@@ -124,7 +130,7 @@ fn extract_pool_keys_sorted(transactions: &mut [Transaction]) -> Vec<PoolKey> {
 fn transactions_for_pool(transactions: &[Transaction], pool_key: &PoolKey) -> Vec<Transaction> {
     transactions
         .iter()
-        .filter(|tx| Some(pool_key) == PoolKey::from_bytes(&tx.data).as_ref())
+        .filter(|tx| Some(pool_key) == named_pool_key(&tx.data).as_ref())
         .cloned()
         .collect()
 }
@@ -236,7 +242,7 @@ fn get_swap_transactions<C: ContentAddrStore>(state: &UnsealedState<C>) -> Vec<T
             (tx.kind == TxKind::Swap).then_some(())?; // ensure that this is a swap request at all
             (!tx.outputs.is_empty()).then_some(())?; // ensure not empty
             state.coins.get_coin(tx.output_coinid(0))?; // ensure that first output is unspent
-            let pool_key = PoolKey::from_bytes(&tx.data)?; // ensure that data contains a pool key
+            let pool_key = named_pool_key(&tx.data)?; // ensure that data contains a pool key
             state.pools.get(&pool_key)?; // ensure that pool key points to a valid pool
             (tx.outputs[0].denom == pool_key.left() || tx.outputs[0].denom == pool_key.right())
                 .then_some(())?; // ensure that the first output is either left or right
@@ -342,7 +348,7 @@ fn get_deposit_transactions<C: ContentAddrStore>(state: &UnsealedState<C>) -> Ve
                 && state.coins.get_coin(tx.output_coinid(0)).is_some()
                 && state.coins.get_coin(tx.output_coinid(1)).is_some())
             .then_some(())?;
-            let pool_key = PoolKey::from_bytes(&tx.data)?;
+            let pool_key = named_pool_key(&tx.data)?;
             (tx.outputs[0].denom == pool_key.left() && tx.outputs[1].denom == pool_key.right())
                 .then_some(tx)
         })
@@ -423,7 +429,7 @@ fn get_withdrawal_transactions<C: ContentAddrStore>(state: &UnsealedState<C>) ->
                 && tx.outputs.len() == 1
                 && state.coins.get_coin(tx.output_coinid(0)).is_some())
             .then_some(())?;
-            let pool_key = PoolKey::from_bytes(&tx.data)?;
+            let pool_key = named_pool_key(&tx.data)?;
             state.pools.get(&pool_key)?;
             (tx.outputs[0].denom == pool_key.liq_token_denom()).then_some(tx)
         })
